@@ -83,11 +83,15 @@ def child_main(path):
     with open(os.path.join(path, "index.json")) as f:
         index = json.load(f)
     res = {}
+    from ..fixtures import pickle_fix
+
     for name, can_register in index:
         try:
             with open(os.path.join(path, name + ".pkl"), "rb") as f:
                 ds = pickle.load(f)
+            del pickle_fix.CALLS[:]
             res[name] = behaviour(ds, can_register)
+            res[name]["body_calls"] = len(pickle_fix.CALLS)
         except BaseException as e:  # noqa
             res[name] = {"error": f"{type(e).__name__}: {e}"}
     print("RESULT " + json.dumps(res))
@@ -172,6 +176,7 @@ def run_case(case):
         # fresh interpreter
         env = dict(os.environ)
         env["LABMC_PINNED"] = "1"
+        env["PYTHONHASHSEED"] = str(1 + proto)  # the receiving interpreter has its own hash seed
         root = os.path.dirname(os.path.dirname(os.path.dirname(os.path.abspath(__file__))))
         p = subprocess.run([sys.executable, "-B", "-m", "labmc.checks.c20", tmp], cwd=root, env=env, capture_output=True, text=True, timeout=300)
         line = [l for l in p.stdout.splitlines() if l.startswith("RESULT ")]
@@ -189,6 +194,8 @@ def run_case(case):
                     fail("fresh-interpreter-behaviour-differs", name, _diff(exp["per_dict"], got["per_dict"]))
                 if got["late"] != exp["late"]:
                     fail("fresh-interpreter-late-registration-differs", name, f"{got['late']} vs {exp['late']}")
+                if name == "counted" and got.get("body_calls", 0) != 0:
+                    fail("stored-values-lost-in-the-fresh-interpreter", name, f"every dictionary was evaluated before pickling, yet the body ran {got['body_calls']}x after loading in a fresh interpreter")
                 res["nontrivial"] += sum(1 for e, k in got["per_dict"] if e[0] == "ok")
     finally:
         shutil.rmtree(tmp, ignore_errors=True)
